@@ -59,3 +59,298 @@ Definition sse_bss_encode_double (count : nat) (src out : list N) : res (list N)
 (** carquet_sse_byte_stream_split_decode_double has no vector loop: it is the scalar loop *)
 Definition sse_bss_decode_double (count : nat) (src out : list N) : res (list N) :=
   scalar_loop count (bss_dec_step 8 count src) out.
+
+(* ------------------------------------------------------------------ prefix sums (state = array, running sum) *)
+Local Open Scope N_scope.
+
+(** carquet_sse_prefix_sum_i32, body of `for (; i + 4 <= count; i += 4)` *)
+Definition sse_psum32_block (i : nat) (st : list N * N) : res (list N * N) :=
+  let '(buf, sum) := st in
+  let* v := load buf (i * 4)%nat 16 in
+  let v := add_lanes 4 v (mm_slli_si128 v 4) in
+  let v := add_lanes 4 v (mm_slli_si128 v 8) in
+  let v := add_lanes 4 v (mm_set1_epi32 sum) in
+  let* buf := store buf (i * 4)%nat v in
+  Ok (buf, le_num (mm_extract_epi32 v 3)).
+
+Definition sse_prefix_sum_i32 (count : nat) (buf : list N) (initial : N) : res (list N) :=
+  rmap fst (simd_loop 4 count sse_psum32_block (psum_step 4) (buf, initial mod 2 ^ 32)).
+
+(** carquet_sse_prefix_sum_i64, body of `for (; i + 2 <= count; i += 2)` *)
+Definition sse_psum64_block (i : nat) (st : list N * N) : res (list N * N) :=
+  let '(buf, sum) := st in
+  let* v := load buf (i * 8)%nat 16 in
+  let v := add_lanes 8 v (mm_slli_si128 v 8) in
+  let v := add_lanes 8 v (mm_set1_epi64x sum) in
+  let* buf := store buf (i * 8)%nat v in
+  Ok (buf, le_num (sub v 8 8)).
+
+Definition sse_prefix_sum_i64 (count : nat) (buf : list N) (initial : N) : res (list N) :=
+  rmap fst (simd_loop 2 count sse_psum64_block (psum_step 8) (buf, initial mod 2 ^ 64)).
+
+(* ------------------------------------------------------------------ dictionary gather *)
+(** __builtin_prefetch is a hint: it never faults and moves no data, so it is not modelled; the index reads
+    that compute its address (indices[i], [i+2], [i+4], [i+6]) are inside the block's own range. *)
+
+(** `v_k = dict[indices[i + k]]` for k < n, concatenated (what _mm_set_epi32(v3, v2, v1, v0) etc. assemble) *)
+Definition gather_n (w n : nat) (dict idxs : list N) (i : nat) : res (list N) :=
+  iter_blocks n 1 0 (fun k acc =>
+    let* ix := load idxs ((i + k) * 4)%nat 4 in
+    let* x := load dict (N.to_nat (le_num ix) * w)%nat w in Ok (acc ++ x)) [].
+
+(** carquet_sse_gather_i32 / _float: 8 per iteration (two 16-byte stores), then 4 per iteration, then one *)
+Definition sse_gather32_block8 (dict idxs : list N) (i : nat) (out : list N) : res (list N) :=
+  let* r0 := gather_n 4 4 dict idxs i in
+  let* out := store out (i * 4)%nat r0 in
+  let* r1 := gather_n 4 4 dict idxs (i + 4) in
+  store out ((i + 4) * 4)%nat r1.
+Definition sse_gather32_block4 (dict idxs : list N) (i : nat) (out : list N) : res (list N) :=
+  let* r := gather_n 4 4 dict idxs i in store out (i * 4)%nat r.
+
+Definition sse_gather_i32 (count : nat) (dict idxs out : list N) : res (list N) :=
+  let n8 := (count / 8)%nat in
+  let* out := iter_blocks n8 8 0 (sse_gather32_block8 dict idxs) out in
+  let i := (8 * n8)%nat in
+  let n4 := ((count - i) / 4)%nat in
+  let* out := iter_blocks n4 4 i (sse_gather32_block4 dict idxs) out in
+  let i := (i + 4 * n4)%nat in
+  iter_blocks (count - i) 1 i (gather_step 4 dict idxs) out.
+(** carquet_sse_gather_float is the same code with float temporaries (_mm_set_ps / _mm_storeu_ps): bytes are moved *)
+Definition sse_gather_float := sse_gather_i32.
+
+(** carquet_sse_gather_i64 / _double: 4 per iteration (two 16-byte stores), then one *)
+Definition sse_gather64_block4 (dict idxs : list N) (i : nat) (out : list N) : res (list N) :=
+  let* r := gather_n 8 4 dict idxs i in
+  let* out := store out (i * 8)%nat (sub r 0 16) in
+  store out ((i + 2) * 8)%nat (sub r 16 16).
+Definition sse_gather_i64 (count : nat) (dict idxs out : list N) : res (list N) :=
+  simd_loop 4 count (sse_gather64_block4 dict idxs) (gather_step 8 dict idxs) out.
+Definition sse_gather_double := sse_gather_i64.
+
+(* ------------------------------------------------------------------ CRC32C *)
+
+(** carquet_sse_crc32c (as repaired: complement in, complement out): 8, 4, 2, 1 bytes at a time *)
+Fixpoint crc_chunks (n w : nat) (data : list N) (i : nat) (crc : N) : res N :=
+  match n with
+  | O => Ok crc
+  | S m => let* x := load data i w in crc_chunks m w data (i + w) (crc32c_bytes crc x)
+  end.
+Definition sse_crc32c (crc : N) (data : list N) : res N :=
+  let len := length data in
+  let crc := N.lxor (crc mod 2 ^ 32) 0xFFFFFFFF in
+  let n8 := (len / 8)%nat in
+  let* crc := crc_chunks n8 8 data 0 crc in
+  let i := (8 * n8)%nat in
+  let n4 := ((len - i) / 4)%nat in
+  let* crc := crc_chunks n4 4 data i crc in
+  let i := (i + 4 * n4)%nat in
+  let* ci := (if (i + 2 <=? len)%nat then let* x := load data i 2 in Ok (crc32c_bytes crc x, (i + 2)%nat) else Ok (crc, i)) in
+  let '(crc, i) := ci in
+  let* crc := (if (i <? len)%nat then let* x := load1 data i in Ok (crc32c_u8 crc x) else Ok crc) in
+  Ok (N.lxor crc 0xFFFFFFFF).
+
+(* ------------------------------------------------------------------ memset / memcpy *)
+
+Fixpoint set_chunks (n W : nat) (v : list N) (out : list N) (d : nat) : res (list N) :=
+  match n with
+  | O => Ok out
+  | S m => let* out := store out d v in set_chunks m W v out (d + W)
+  end.
+Fixpoint copy_chunks2 (n W : nat) (src out : list N) (i : nat) : res (list N) :=
+  match n with
+  | O => Ok out
+  | S m => let* x := load src i W in let* out := store out i x in copy_chunks2 m W src out (i + W)
+  end.
+
+(** carquet_sse_memset_small: 64-byte unrolled (4 stores of 16), then 16, then bytes *)
+Definition sse_memset_small (n : nat) (value : N) (out : list N) : res (list N) :=
+  let v := set1_epi8 16 value in
+  let n64 := (n / 64)%nat in
+  let* out := set_chunks (4 * n64) 16 v out 0 in
+  let d := (64 * n64)%nat in
+  let n16 := ((n - d) / 16)%nat in
+  let* out := set_chunks n16 16 v out d in
+  let d := (d + 16 * n16)%nat in
+  set_chunks (n - d) 1 [value mod 256] out d.
+
+(** carquet_sse_memcpy_small *)
+Definition sse_memcpy_small (n : nat) (src out : list N) : res (list N) :=
+  let n64 := (n / 64)%nat in
+  let* out := copy_chunks2 n64 64 src out 0 in
+  let d := (64 * n64)%nat in
+  let n16 := ((n - d) / 16)%nat in
+  let* out := copy_chunks2 n16 16 src out d in
+  let d := (d + 16 * n16)%nat in
+  copy_chunks2 (n - d) 1 src out d.
+
+(* ------------------------------------------------------------------ booleans *)
+
+(** _mm_set_epi8(0x80, 0x40, ..., 0x01, 0x80, ..., 0x01): least significant byte first *)
+Definition bit_mask16 : list N := [1; 2; 4; 8; 16; 32; 64; 128; 1; 2; 4; 8; 16; 32; 64; 128].
+Definition shuf_bytes01 : list N := [0; 0; 0; 0; 0; 0; 0; 0; 1; 1; 1; 1; 1; 1; 1; 1].
+
+(** carquet_sse_unpack_bools, body of `for (; i + 16 <= count; i += 16)` *)
+Definition sse_unpack_bools_block (inp : list N) (i : nat) (out : list N) : res (list N) :=
+  let* packed := load inp (i / 8)%nat 2 in
+  let bits := mm_set1_epi16 (le_num packed) in
+  let shuffled := mm_shuffle_epi8 bits shuf_bytes01 in
+  let masked := mm_and shuffled bit_mask16 in
+  let result := mm_min_epu8 masked (set1_epi8 16 1) in
+  store out i result.
+Definition sse_unpack_bools (count : nat) (inp out : list N) : res (list N) :=
+  simd_loop 16 count (sse_unpack_bools_block inp) (unpack_step inp) out.
+
+(** carquet_sse_pack_bools, body of `for (; i + 8 <= count; i += 8)` *)
+Definition sse_pack_bools_block (inp : list N) (i : nat) (out : list N) : res (list N) :=
+  let* x := load inp i 8 in
+  let bools := mm_loadl_epi64 x in
+  let shifted := mm_slli_epi32 bools 7 in
+  store1 out (i / 8)%nat (movemask_epi8 shifted mod 256).
+Definition sse_pack_bools (count : nat) (inp out : list N) : res (list N) :=
+  let n8 := (count / 8)%nat in
+  let* out := iter_blocks n8 8 0 (sse_pack_bools_block inp) out in
+  let i := (8 * n8)%nat in
+  if (i <? count)%nat then pack_tail count inp i out else Ok out.
+
+(* ------------------------------------------------------------------ match copy / match length *)
+
+Fixpoint fill_pattern (n W : nat) (v : list N) (buf : list N) (d : nat) : res (list N) :=
+  match n with
+  | O => Ok buf
+  | S m => let* buf := store buf d v in fill_pattern m W v buf (d + W)
+  end.
+
+(** carquet_sse_match_copy(dst, src, len, offset) with dst = buf + d, src = buf + d - offset *)
+Definition sse_match_copy (buf : list N) (d len offset : nat) : res (list N) :=
+  let s := (d - offset)%nat in
+  if (16 <=? offset)%nat then
+    let k := (len / 16)%nat in
+    let* buf := copy_chunks k 16 buf s d in
+    let s := (s + 16 * k)%nat in let d := (d + 16 * k)%nat in let len := (len - 16 * k)%nat in
+    let* t := (if (8 <=? len)%nat then
+                 let* x := load buf s 8 in let* buf := store buf d x in Ok (buf, (s + 8)%nat, (d + 8)%nat, (len - 8)%nat)
+               else Ok (buf, s, d, len)) in
+    let '(buf, s, d, len) := t in
+    copy_bytes len buf s d
+  else if (offset =? 1)%nat then
+    let* val := load1 buf s in
+    let k := (len / 16)%nat in
+    let* buf := fill_pattern k 16 (set1_epi8 16 val) buf d in
+    fill_pattern (len - 16 * k) 1 [val] buf (d + 16 * k)
+  else if (offset =? 2)%nat then
+    let* v0 := load1 buf s in
+    let* v1 := load1 buf (s + 1) in
+    let k := (len / 2)%nat in
+    let* buf := fill_pattern k 2 [v0; v1] buf d in
+    if (0 <? len - 2 * k)%nat then store1 buf (d + 2 * k) v0 else Ok buf
+  else if (offset =? 4)%nat then
+    let* pattern := load buf s 4 in
+    let k := (len / 16)%nat in
+    let* buf := fill_pattern k 16 (pattern ++ pattern ++ pattern ++ pattern) buf d in
+    let d := (d + 16 * k)%nat in let len := (len - 16 * k)%nat in
+    let k4 := (len / 4)%nat in
+    let* buf := fill_pattern k4 4 pattern buf d in
+    let d := (d + 4 * k4)%nat in let len := (len - 4 * k4)%nat in
+    (* `for (i = 0; i < len; i++) dst[i] = src[i];` with the ORIGINAL src *)
+    iter_blocks len 1 0 (fun i b => let* x := load1 b (s + i) in store1 b (d + i) x) buf
+  else copy_bytes len buf s d.
+
+(** carquet_sse_match_length(p, match, limit) with limit - p = n *)
+Fixpoint sse_match_blocks (nb : nat) (p m : list N) (k : nat) : res (nat * bool) :=
+  match nb with
+  | O => Ok (k, false)
+  | S nb' =>
+      let* a := load p k 16 in
+      let* b := load m k 16 in
+      let mask := movemask_epi8 (cmpeq_lanes 1 a b) in
+      if mask =? 0xFFFF then sse_match_blocks nb' p m (k + 16)
+      else Ok ((k + N.to_nat (ctz32 (N.lxor mask 0xFFFFFFFF)))%nat, true)
+  end.
+Definition sse_match_length (n : nat) (p m : list N) : res nat :=
+  let* r := sse_match_blocks (n / 16) p m 0 in
+  let '(k, done) := r in
+  if done then Ok k else match_scan (n - k) p m k.
+
+(* ------------------------------------------------------------------ definition levels *)
+
+(** carquet_sse_count_non_nulls, body of `for (; i + 8 <= count; i += 8)` *)
+Definition sse_nonnull_block (lv : list N) (mx : N) (i : nat) (acc : N) : res N :=
+  let* levels := load lv (i * 2)%nat 16 in
+  let cmp := cmpeq_lanes 2 levels (mm_set1_epi16 mx) in
+  let mask := movemask_epi8 cmp in
+  Ok (acc + N.shiftr (popcount32 mask) 1).
+Definition sse_count_non_nulls (count : nat) (lv : list N) (mx : N) : res N :=
+  simd_loop 8 count (sse_nonnull_block lv mx) (nonnull_step lv mx) 0.
+
+(** carquet_sse_build_null_bitmap *)
+Definition sse_nullbm_block (lv : list N) (mx : N) (b : nat) (out : list N) : res (list N) :=
+  let* levels := load lv (b * 8 * 2)%nat 16 in
+  let cmp := mm_cmplt_epi16 levels (mm_set1_epi16 mx) in
+  let packed := mm_packs_epi16 cmp (zeros 16) in
+  store1 out b (movemask_epi8 packed mod 256).
+Definition sse_build_null_bitmap (count : nat) (lv : list N) (mx : N) (out : list N) : res (list N) :=
+  let full := (count / 8)%nat in
+  let* out := iter_blocks full 1 0 (sse_nullbm_block lv mx) out in
+  let i := (full * 8)%nat in
+  if (i <? count)%nat then
+    let* bits := null_bits lv mx i (Nat.min (count - i) 8) in store1 out full bits
+  else Ok out.
+
+(** carquet_sse_fill_def_levels *)
+Definition sse_fill_block (v : N) (i : nat) (out : list N) : res (list N) := store out (i * 2)%nat (mm_set1_epi16 v).
+Definition sse_fill_def_levels (count : nat) (v : N) (out : list N) : res (list N) :=
+  simd_loop 8 count (sse_fill_block v) (fill_step v) out.
+
+(** carquet_sse_find_run_length_i32 *)
+Fixpoint sse_run_blocks (nb : nat) (vals first : list N) (i : nat) : res (nat * bool) :=
+  match nb with
+  | O => Ok (i, false)
+  | S nb' =>
+      let* v := load vals (i * 4)%nat 16 in
+      let mask := movemask_epi8 (cmpeq_lanes 4 v (first ++ first ++ first ++ first)) in
+      if mask =? 0xFFFF then sse_run_blocks nb' vals first (i + 4)
+      else Ok ((i + N.to_nat (N.shiftr (ctz32 (N.lxor mask 0xFFFFFFFF)) 2))%nat, true)
+  end.
+Definition sse_find_run_length (count : nat) (vals : list N) : res nat :=
+  match count with
+  | O => Ok O
+  | _ => let* first := load vals 0 4 in
+         let* r := sse_run_blocks (count / 4) vals first 0 in
+         let '(i, done) := r in
+         if done then Ok i else run_scan (count - i) vals first i count
+  end.
+
+(* ------------------------------------------------------------------ fixed-width bit unpackers *)
+
+Definition expand_u8_u32_lo (v : list N) : list N * list N :=
+  let zero := zeros 16 in
+  let words := mm_unpacklo_epi8 v zero in
+  (mm_unpacklo_epi16 words zero, mm_unpackhi_epi16 words zero).
+
+(** carquet_sse_bitunpack8_8bit: 8 bytes in, 8 x uint32 out *)
+Definition sse_bitunpack8_8bit (inp : list N) : res (list N) :=
+  let* x := load inp 0 8 in
+  let '(v0, v1) := expand_u8_u32_lo (mm_loadl_epi64 x) in Ok (v0 ++ v1).
+
+(** carquet_sse_bitunpack8_4bit: 4 bytes in, 8 x uint32 out *)
+Definition sse_bitunpack8_4bit (inp : list N) : res (list N) :=
+  let* x := load inp 0 4 in
+  let bytes := mm_cvtsi32_si128 x in
+  let lo_nibbles := mm_and bytes (set1_epi8 16 0x0F) in
+  let hi_nibbles := mm_and (mm_srli_epi16 bytes 4) (set1_epi8 16 0x0F) in
+  let interleaved := mm_unpacklo_epi8 lo_nibbles hi_nibbles in
+  let '(v0, v1) := expand_u8_u32_lo interleaved in Ok (v0 ++ v1).
+
+(** carquet_sse_bitunpack32_1bit: 4 bytes in, 32 x uint32 out *)
+Definition sse_bitunpack32_1bit (inp : list N) : res (list N) :=
+  let* x := load inp 0 4 in
+  let bytes := mm_cvtsi32_si128 x in
+  let half (shuf : list N) :=
+    let expanded := mm_shuffle_epi8 bytes shuf in
+    let masked := mm_and expanded bit_mask16 in
+    let result := mm_min_epu8 masked (set1_epi8 16 1) in
+    let zero := zeros 16 in
+    let lo8 := mm_unpacklo_epi8 result zero in
+    let hi8 := mm_unpackhi_epi8 result zero in
+    mm_unpacklo_epi16 lo8 zero ++ mm_unpackhi_epi16 lo8 zero ++ mm_unpacklo_epi16 hi8 zero ++ mm_unpackhi_epi16 hi8 zero in
+  Ok (half shuf_bytes01 ++ half [2; 2; 2; 2; 2; 2; 2; 2; 3; 3; 3; 3; 3; 3; 3; 3]).
